@@ -373,6 +373,13 @@ fn ns(t: MonotonicTime) -> i128 {
 
 pub struct PanicCode(pub i64);
 
+pub static SM_DROPS: std::sync::atomic::AtomicUsize = std::sync::atomic::AtomicUsize::new(0);
+impl Drop for SM {
+    fn drop(&mut self) {
+        SM_DROPS.fetch_add(1, std::sync::atomic::Ordering::SeqCst);
+    }
+}
+
 pub struct SM {
     id: usize,
     spec: Arc<MSpec>,
@@ -739,6 +746,7 @@ fn drain(log: &Log) -> String {
 }
 
 pub fn run(case: &Case) -> String {
+    SM_DROPS.store(0, std::sync::atomic::Ordering::SeqCst);
     let log: Log = Arc::new(Mutex::new(Vec::new()));
     let n = case.models.len();
     let mut mboxes: Vec<Option<Mailbox<SM>>> = case
@@ -1011,6 +1019,10 @@ pub fn run(case: &Case) -> String {
     // on it would wake that task from outside the executor (which panics by design)
     drop(simu);
     drop(sched);
+    // every model that was added (sub-models included) must have been dropped exactly once by now;
+    // models never added are still owned by this function
+    let drops = SM_DROPS.load(std::sync::atomic::Ordering::SeqCst);
+    let handler_log_after_drop = drain(&log);
     drop(orphans);
-    out.join(" | ")
+    format!("{} || D:{}:[{}]", out.join(" | "), drops, handler_log_after_drop)
 }
